@@ -100,7 +100,9 @@ def config(name):
         from pySDC.implementations.hooks.log_errors import LogGlobalErrorPostStep
         from pySDC.implementations.hooks.log_work import LogSDCIterations
 
-        cp['hook_class'] = [LogSolution, LogWork, LogSDCIterations, LogGlobalErrorPostStep]
+        from pySDC.implementations.hooks.log_errors import LogGlobalErrorPostRun
+
+        cp['hook_class'] = [LogSolution, LogWork, LogSDCIterations, LogGlobalErrorPostStep, LogGlobalErrorPostRun]
     elif base == 'restarts':
         # every block is computed twice: a deterministic detector (environment) rejects the first attempt of the first
         # step of every block, so that the last block of every run and of every leg is a recomputation
@@ -142,6 +144,8 @@ FIXED = ['sdc', 'sdcs', 'lobatto', 'mlsdc', 'mlsdc_equid', 'mlsdc_flex', 'newton
 ALL = FIXED + ['adaptive']
 
 
+# configurations that also take part in sequences mixing runs over windows of different length
+SHORT_RUNS = ['hooks', 'restarts']
 SHARED_FAMILY = ['sdc', 'sdcs', 'lobatto', 'rk']
 NESTED = ('problem_params', 'sweeper_params', 'level_params', 'step_params')
 
@@ -219,7 +223,9 @@ def logical_run(name, how, ctrl_a, ctrl_b=None):
     P, cp, desc, dt = config(name)
     Tend = NBLOCKS * P * dt
     u0 = u_init(ctrl_a)
-    if how == 'full':
+    if how in ('full', 'short'):
+        if how == 'short':
+            Tend = P * dt  # one block only: a run that ends EARLIER than the other runs on the same controller
         uend, stats = ctrl_a.run(u0=u0, t0=0.0, Tend=Tend)
         stats = dict(stats)
         return (digest(uend, [stats]), 'ok' if window_ok(stats, 0.0, Tend, dt) else 'window')
@@ -234,7 +240,9 @@ def logical_run(name, how, ctrl_a, ctrl_b=None):
     u2, s2 = (ctrl_b or ctrl_a).run(u0=u1, t0=tmid, Tend=Tend)
     s2 = dict(s2)
     win = 'ok' if window_ok(s1, 0.0, tmid, dt) and window_ok(s2, tmid, Tend, dt) else 'window'
-    return (digest(u2, [s1, s2]), digest(u1, [s1]), digest(u2, [s2]), win)
+    # records written once per run() (post-run error) of the first leg have no counterpart in the uninterrupted run
+    s1m = {k: v for k, v in s1.items() if not str(k.type).endswith('_post_run')}
+    return (digest(u2, [s1m, s2]), digest(u1, [s1]), digest(u2, [s2]), win)
 
 
 def reference(name):
@@ -256,6 +264,8 @@ def expected(ref, how):
     """what the digest tuple of an observation must be"""
     if how == 'full':
         return (ref['full'], 'ok')
+    if how == 'short':
+        return (ref['short'], 'ok')
     k = how.split('@')[1]
     m, l1, l2 = ref['split' + k]
     return (ref['full'], l1, l2, 'ok')
@@ -275,6 +285,8 @@ def sequences(depth, names):
                 rec(seq + [('new', n)], live + [n])
         for i, n in enumerate(live):
             rec(seq + [('run', i)], live)
+            if n in SHORT_RUNS:
+                rec(seq + [('run_short', i)], live)
             if n in FIXED:
                 for k in (1, 2):
                     rec(seq + [('split_same', i, k)], live)
@@ -310,6 +322,9 @@ def execute(seq):
         elif op[0] == 'run':
             n, c = live[op[1]]
             obs.append((idx, n, 'full', logical_run(n, 'full', c)))
+        elif op[0] == 'run_short':
+            n, c = live[op[1]]
+            obs.append((idx, n, 'short', logical_run(n, 'short', c)))
         elif op[0] == 'split_same':
             n, c = live[op[1]]
             obs.append((idx, n, f'split_same@{op[2]}', logical_run(n, ('split', op[2]), c)))
@@ -428,6 +443,7 @@ if __name__ == '__main__':
         res = {}
         ctrl, P, dt = build(name)
         res['full'] = logical_run(name, 'full', ctrl)[0]
+        res['short'] = logical_run(name, 'short', build(name)[0])[0]
         if name in FIXED:
             for k in (1, 2):
                 a, _, _ = build(name)
